@@ -2205,3 +2205,137 @@ func c14R8(c *Ctx, r *Report) {
 	})
 	r.Floor(rule, n, 2, "load-failure branches in parseModule")
 }
+
+// ---- C12.R5 / R6: private methods, casts of foreign structs with private fields ---------------------------------
+
+func init() {
+	lateInits = append(lateInits, func() {
+		props["C12"].Quick = append(props["C12"].Quick, c12R5, c12R6)
+		props["C12"].Explanation += " (R5) the type checker's method branch of a selector reports a method whose MethodInfo.Exported is false unless the type symbol is the current module's own. (R6) checkCastExpr refuses to convert a named struct type of another module that has a lowercase field into a different struct type, before it compares the structures."
+	})
+}
+
+func c12R5(c *Ctx, r *Report) {
+	const rule = "C12.R5"
+	r.Describe(rule, "typechecker: where a selector resolves to typeSym.Methods[name], an if that tests MethodInfo.Exported reports and returns before the method is accepted")
+	bagAdd := c.LookupFn("internal/diagnostics", "(*DiagnosticBag).Add")
+	exported := c.fieldObj("internal/semantics/symbols", "MethodInfo", "Exported")
+	methods := c.fieldObj("internal/semantics/symbols", "Symbol", "Methods")
+	if !r.Anchor(rule, bagAdd != nil && exported != nil && methods != nil, "DiagnosticBag.Add / MethodInfo.Exported / Symbol.Methods") {
+		return
+	}
+	n := 0
+	for _, fn := range c.AllFns(pkgTC) {
+		info := fn.Info()
+		// only the selector checker: it also reports private fields
+		isSelectorChecker := false
+		ast.Inspect(fn.Decl.Body, func(x ast.Node) bool {
+			if bl, ok := x.(*ast.BasicLit); ok {
+				if v := constOf(info, bl); v != nil && v.Kind() == constant.String && strings.Contains(constant.StringVal(v), "is private") && strings.Contains(constant.StringVal(v), "field") {
+					isSelectorChecker = true
+				}
+			}
+			return true
+		})
+		if !isSelectorChecker {
+			continue
+		}
+		ast.Inspect(fn.Decl.Body, func(x ast.Node) bool {
+			ifs, ok := x.(*ast.IfStmt)
+			if !ok || ifs.Init == nil {
+				return true
+			}
+			as, ok := ifs.Init.(*ast.AssignStmt)
+			if !ok || len(as.Rhs) != 1 {
+				return true
+			}
+			ix, ok := ast.Unparen(as.Rhs[0]).(*ast.IndexExpr)
+			if !ok || fieldOf(info, ix.X) != methods {
+				return true
+			}
+			n++
+			guarded := false
+			ast.Inspect(ifs.Body, func(y ast.Node) bool {
+				inner, ok := y.(*ast.IfStmt)
+				if !ok {
+					return true
+				}
+				tests := false
+				ast.Inspect(inner.Cond, func(z ast.Node) bool {
+					if e, ok := z.(ast.Expr); ok && fieldOf(info, e) == exported {
+						tests = true
+					}
+					return true
+				})
+				if tests && nodeCallsDeep(info, inner.Body, bagAdd.Obj) {
+					guarded = true
+				}
+				return true
+			})
+			r.Check(guarded, rule, fn.Name(), "a method that is not exported is reported for foreign types", c.pos(ifs.Pos()),
+				"`a.secretMethod()` on a value of another module's type compiles: a lowercase method is a private function of its module")
+			return true
+		})
+	}
+	r.Floor(rule, n, 1, "method look-ups in the selector checker")
+}
+
+func c12R6(c *Ctx, r *Report) {
+	const rule = "C12.R6"
+	r.Describe(rule, "typechecker.checkCastExpr: in the struct-to-struct branch a helper that walks the source's fields with IsExported is consulted, and its positive result is reported and returned on, before analyzeStructCompatibility")
+	fn := c.LookupFn(pkgTC, "checkCastExpr")
+	an := c.LookupFn(pkgTC, "analyzeStructCompatibility")
+	bagAdd := c.LookupFn("internal/diagnostics", "(*DiagnosticBag).Add")
+	if !r.Anchor(rule, fn != nil && an != nil && bagAdd != nil, "typechecker.checkCastExpr / analyzeStructCompatibility") {
+		return
+	}
+	info := fn.Info()
+	var anPos token.Pos
+	for _, cl := range callsIn(fn.Decl.Body, false) {
+		if isCallTo(info, cl, an.Obj) && anPos == token.NoPos {
+			anPos = cl.Pos()
+		}
+	}
+	if !r.Anchor(rule, anPos != token.NoPos, "checkCastExpr: analyzeStructCompatibility call") {
+		return
+	}
+	guarded := false
+	ast.Inspect(fn.Decl.Body, func(x ast.Node) bool {
+		ifs, ok := x.(*ast.IfStmt)
+		if !ok || ifs.Pos() > anPos {
+			return true
+		}
+		consults := false
+		scan := func(n ast.Node) {
+			if n == nil {
+				return
+			}
+			for _, cl := range callsIn(n, false) {
+				if hf := c.FnOf(callee(info, cl)); hf != nil && hf.Decl != nil && hf.Decl.Body != nil && hf.Obj.Pkg() == fn.Obj.Pkg() {
+					for _, c2 := range callsIn(hf.Decl.Body, false) {
+						if g := callee(hf.Info(), c2); g != nil && g.Name() == "IsExported" {
+							consults = true
+						}
+					}
+				}
+			}
+		}
+		scan(ifs.Init)
+		scan(ifs.Cond)
+		if !consults {
+			return true
+		}
+		hasRet := false
+		for _, st := range ifs.Body.List {
+			if _, ok := st.(*ast.ReturnStmt); ok {
+				hasRet = true
+			}
+		}
+		if hasRet && nodeCallsDeep(info, ifs.Body, bagAdd.Obj) && ifs.End() < anPos {
+			guarded = true
+		}
+		return true
+	})
+	r.Check(guarded, rule, fn.Name(), "foreign struct types with private fields are not converted", c.pos(fn.Decl.Pos()),
+		"`lib::NewAccount() as Acct` with a structurally identical local type type-checks, and a method of Acct then reads the private field lib::Account.balance")
+}
